@@ -464,7 +464,7 @@ func encoderTouches(fn *ssa.Function, seen map[*ssa.Function]bool, depth int) []
 	isRecv := func(v ssa.Value) bool {
 		return mayBe(v, func(x ssa.Value) bool {
 			dd := Desc(x)
-			return dd == recv.Name() || dd == recv.Name()+".jsonEncoder"
+			return dd == PN(recv) || dd == PN(recv)+".jsonEncoder"
 		})
 	}
 	// reach: v is (a pointer, slice or map held in) a field of the shared receiver - a per-encoder scratch object is as
